@@ -58,6 +58,9 @@ def scenarios(tier):
     for ev in ('none', 'connect'):
         for tail in ('check', 'incr-od', 'die-od'):
             out.append(Scenario('ondemand', ev=ev, tail=tail, nodet=True))
+    for tail in ('lose-one+stop', 'lose-one+rm'):
+        out.append(Scenario('ondemand', ev='connect', tail=tail, nodet=True))
+
     # a stop / rm that completes while the socket-event start of an on-demand watcher is between two spawns
     for op in ('stop', 'rm'):
         out.append(Scenario('ondemand-race', op=op, E=1))
@@ -389,8 +392,8 @@ def _run_ondemand(scn, ch, res):
     import socket
     from circus.sockets import CircusSocket
     sock = CircusSocket.load_from_config({'name': 'web', 'host': '127.0.0.1', 'port': '0'})
-    world = World(ch, [WSpec('od', numprocesses=1, graceful_timeout=G, on_demand=True, use_sockets=True,
-                             cmd='worker --fd $(circus.sockets.web)'),
+    world = World(ch, [WSpec('od', numprocesses=2 if scn.tail.startswith('lose-one') else 1, graceful_timeout=G,
+                             on_demand=True, use_sockets=True, cmd='worker --fd $(circus.sockets.web)'),
                        WSpec('a', numprocesses=1, graceful_timeout=G)], sockets=[sock])
     client = None
     try:
@@ -415,6 +418,28 @@ def _run_ondemand(scn, ch, res):
         elif scn.tail == 'die-od':
             for p in world.procs_of('od', [RUNNING]):
                 world.die(p.pid, EXIT1)
+        elif scn.tail.startswith('lose-one'):
+            # the on-demand watcher (2 workers, woken by the connection) loses ONE worker; a check passes; then it is stopped
+            # (or removed): the worker that was left must be gone as well
+            try:
+                conn, _ = world.arbiter.sockets['web'].accept()
+                conn.close()
+            except OSError:
+                pass
+            live_od = world.procs_of('od', [RUNNING])
+            if live_od:
+                world.die(live_od[0].pid, EXIT1)
+            world.settle(1)
+            rq = world.request('stop' if scn.tail == 'lose-one+stop' else 'rm', name='od', waiting=True)
+            world.run(until=lambda w: rq.replied(), horizon=3)
+            if rq.replied() and rq.ok():
+                left = [p.pid for p in world.procs_of('od') if p.state == RUNNING]
+                res.check('C02.no_survivor', not left,
+                          lambda: '%s od was answered ok while workers %s of the on-demand watcher were still running (status %s)'
+                          % (scn.tail, left, od.status()), where='watcher._stop/on-demand-one-short')
+            world.settle(1)
+            res.outcome = _outcome(world)
+            return finish(world, res)
         world.settle(2)
         if scn.ev == 'connect':
             res.check('C02.ondemand_starts_on_connection', len(world.procs_of('od', [RUNNING])) >= 1,
